@@ -403,6 +403,7 @@ type Acc struct {
 	reuseDiff, routeDiff string
 	cfgDiff, capsDiff    string
 	noHooksDiff          string
+	cliDiff              string
 	HTTPHits             int
 	crdsSeen map[string][]string
 	bodyIncl map[string]bool
@@ -471,6 +472,7 @@ func (a *Acc) Result(crdsFirst []string) ObsLine {
 	o := Obs{Runs: a.Runs, DManifest: len(a.body), DHooks: len(a.hooks), DNotes: len(a.notes), DCrds: len(a.crd),
 		DEngine: len(a.eng), DErr: len(a.errs), DErrText: len(a.errTexts), ReuseSame: a.reuseDiff == "", RouteSame: a.routeDiff == "",
 		ReuseDiff: a.reuseDiff, RouteDiff: a.routeDiff, CfgReuseSame: a.cfgDiff == "", CfgReuseDiff: a.cfgDiff,
+		CLISame: a.cliDiff == "", CLIDiff: a.cliDiff,
 		NoHooksSame: a.noHooksDiff == "", NoHooksDiff: a.noHooksDiff,
 		CapsConcSame: a.capsDiff == "", CapsConcDiff: a.capsDiff, HTTPHits: a.HTTPHits, Manifest: []ManEntry{}, Hooks: []HookEntry{}, Crds: []string{}, Engine: []int{},
 		NotesSeen: []string{}, CrdsSeen: [][]string{}, Schema: a.Schema, Uninst: a.Uninst, UninstErr: a.UninstErr, Err: "none"}
